@@ -130,7 +130,7 @@ def parse_script(script_text, start_line_number=1):
             ifthen = {
                 'jump': {
                     'label': f"__bareScriptIf{label_index}",
-                    'expr': {'unary': {'op': '!', 'expr': parse_expression(match_if_begin.group('expr'))}}
+                    'expr': {'unary': {'op': '!', 'expr': _parse_statement_expression(match_if_begin, 'expr', line, start_line_number + ix_line)}}
                 },
                 'done': f"__bareScriptDone{label_index}",
                 'hasElse': False,
@@ -161,7 +161,7 @@ def parse_script(script_text, start_line_number=1):
             prev_label = ifthen['jump']['label']
             ifthen['jump'] = {
                 'label': f"__bareScriptIf{label_index}",
-                'expr': {'unary': {'op': '!', 'expr': parse_expression(match_if_else_if.group('expr'))}}
+                'expr': {'unary': {'op': '!', 'expr': _parse_statement_expression(match_if_else_if, 'expr', line, start_line_number + ix_line)}}
             }
             label_index += 1
 
@@ -219,7 +219,7 @@ def parse_script(script_text, start_line_number=1):
                 'loop': f'__bareScriptLoop{label_index}',
                 'continue': f'__bareScriptLoop{label_index}',
                 'done': f'__bareScriptDone{label_index}',
-                'expr': parse_expression(match_while_begin.group('expr')),
+                'expr': _parse_statement_expression(match_while_begin, 'expr', line, start_line_number + ix_line),
                 'line': line,
                 'lineNumber': start_line_number + ix_line
             }
@@ -268,7 +268,7 @@ def parse_script(script_text, start_line_number=1):
 
             # Add the for-each header statements
             statements.extend([
-                {'expr': {'name': foreach['values'], 'expr': parse_expression(match_for_begin.group('values'))}},
+                {'expr': {'name': foreach['values'], 'expr': _parse_statement_expression(match_for_begin, 'values', line, start_line_number + ix_line)}},
                 {'expr': {
                     'name': foreach['length'],
                     'expr': {'function': {'name': 'arrayLength', 'args': [{'variable': foreach['values']}]}}
@@ -411,6 +411,14 @@ def parse_script(script_text, start_line_number=1):
         raise BareScriptParserError('Missing endfunction statement', function_def_line[0], 1, function_def_line[1])
 
     return script
+
+
+# Helper to parse a statement's sub-expression group - errors are reported relative to the statement's line
+def _parse_statement_expression(match, group, line, line_number):
+    try:
+        return parse_expression(match.group(group))
+    except BareScriptParserError as error:
+        raise BareScriptParserError(error.error, line, match.start(group) + error.column_number, line_number)
 
 
 # BareScript regex
